@@ -283,7 +283,8 @@ Definition bad_xgi (cs : list xgi_case) : list nat := bad xgi_ok cs 0.
 
 (* ---- L3g: class-level _getitem for basic indices over dense children vs the real _getitem(..).to_dense() *)
 Inductive gop :=
-| GMatmul (l r : tensor) | GSumBatch (b : tensor) | GSum (a b : tensor) | GConstMul (c b : tensor) | GZero (shape : list nat).
+| GMatmul (l r : tensor) | GSumBatch (b : tensor) | GSum (a b : tensor) | GConstMul (c b : tensor) | GZero (shape : list nat)
+| GRoot (r : tensor) | GDefault (dense : tensor).
 Definition gop_getitem (g : gop) : list item -> option tensor :=
   match g with
   | GMatmul l r => matmul_getitem (dense_getitem l) (dense_getitem r)
@@ -291,6 +292,8 @@ Definition gop_getitem (g : gop) : list item -> option tensor :=
   | GSum a b => sum_getitem (dense_getitem a) (dense_getitem b)
   | GConstMul c b => constmul_getitem c (dense_getitem b)
   | GZero shape => zero_getitem shape
+  | GRoot r => root_getitem (dense_getitem r)
+  | GDefault d => default_getitem (dense_getitem d)
   end.
 Record xgt_case := XT { xt_g : gop; xt_its : list item; xt_obs : option tensor }.
 Definition xgt_ok (c : xgt_case) : bool := otensor_eqb (gop_getitem (xt_g c) (xt_its c)) (xt_obs c).
